@@ -184,6 +184,11 @@ def _tau_pool(self):
     self.le[6] = 6.0
     self.le[7] = 12.0
     self.u = self.rng.uniform(0.02, 0.98, n)
+    # members of (0, 1) with special bit patterns: the smallest positive double, the largest below 1 (u = 0 exactly is outside the
+    # samplers' domain - C04 / C18 quantify over u strictly inside the row's CDF range - and the pinned tree rejects such a batch with
+    # a ValueError, which is not an impurity)
+    self.u[15] = 5e-324
+    self.u[16] = np.nextafter(1.0, 0.0)
 
 
 class TauEnergy(Stage):
@@ -293,6 +298,10 @@ def _shower_pool(self):
     self.gamma = 10.0 ** self.rng.uniform(5.0, 9.0, n)
     self.tbeta = np.sqrt(1.0 - 1.0 / self.gamma ** 2)
     self.u = self.rng.uniform(0.01, 1.0, n)
+    # exactly zero (a member of the generator's range [0, 1): infinite decay length), the smallest positive double, the largest below 1
+    self.u[9] = 0.0
+    self.u[10] = 5e-324
+    self.u[11] = np.nextafter(1.0, 0.0)
     self.alt = self.rng.uniform(-1.0, 24.0, n)
     self.alt[0] = 0.0
     self.alt[1] = 20.0
